@@ -266,3 +266,6 @@ package cors
 //@ func Middleware.Wrap
 //@   props C11 C17
 //@   requires m != nil
+//@   # Wrap always returns the request-handling closure (the function under contract above), bound to this
+//@   # middleware and to h: whatever is configured later is seen by handlers wrapped earlier.
+//@   ensures C11.wrap_returns_the_handler: dyntype(result, "http.HandlerFunc") && closurefn(payload(result, "http.HandlerFunc")) == fnid("cors.Middleware.Wrap$1") && deref(closurefv(payload(result, "http.HandlerFunc"), "cors.Middleware.Wrap$1", 0)) === m && deref(closurefv(payload(result, "http.HandlerFunc"), "cors.Middleware.Wrap$1", 1)) === h
